@@ -260,6 +260,12 @@ struct SO2
     c[1] = M(0, 0) / n;
   }
   /// deviation of the representation constraint |c|=1
+  /// distance of the rotation angle of the stored element from pi
+  template<typename S>
+  static L pi_gap(const S * c)
+  {
+    return 3.14159265358979323846264338327950288L - std::atan2(std::fabs((L)c[0]), (L)c[1]);
+  }
   template<typename S>
   static L constraint(const S * c)
   {
@@ -297,6 +303,11 @@ struct C1
     c[1] = M(0, 0);
   }
   template<typename S>
+  static L pi_gap(const S * c)
+  {
+    return SO2::pi_gap(c);
+  }
+  template<typename S>
   static L constraint(const S *)
   {
     return 0;
@@ -324,6 +335,11 @@ struct SO3
     a[2] = (A(1, 0) - A(0, 1)) / S(2);
   }
   static void from_matrix(const Mat<L, 3> & M, L * c) { quat_from_R(M, c); }
+  template<typename S>
+  static L pi_gap(const S * c)
+  {
+    return 3.14159265358979323846264338327950288L - 2 * std::atan2(std::sqrt((L)c[0] * c[0] + (L)c[1] * c[1] + (L)c[2] * c[2]), std::fabs((L)c[3]));
+  }
   template<typename S>
   static L constraint(const S * c)
   {
@@ -370,6 +386,11 @@ struct SE2
     L n  = std::hypot(M(1, 0), M(0, 0));
     c[2] = M(1, 0) / n;
     c[3] = M(0, 0) / n;
+  }
+  template<typename S>
+  static L pi_gap(const S * c)
+  {
+    return SO2::pi_gap(c + 2);
   }
   template<typename S>
   static L constraint(const S * c)
@@ -421,6 +442,11 @@ struct SEK3
     for (int k = 0; k < K; k++)
       for (int i = 0; i < 3; i++) c[3 * k + i] = M(i, 3 + k);
     quat_from_R(R, c + 3 * K);
+  }
+  template<typename S>
+  static L pi_gap(const S * c)
+  {
+    return SO3::pi_gap(c + 3 * K);
   }
   template<typename S>
   static L constraint(const S * c)
@@ -487,6 +513,11 @@ struct Gal
     quat_from_R(R, c + 7);
   }
   template<typename S>
+  static L pi_gap(const S * c)
+  {
+    return SO3::pi_gap(c + 7);
+  }
+  template<typename S>
   static L constraint(const S * c)
   {
     return SO3::constraint(c + 7);
@@ -520,6 +551,11 @@ struct Tn
   static void from_matrix(const Mat<L, Dim> & M, L * c)
   {
     for (int i = 0; i < N; i++) c[i] = M(i, N);
+  }
+  template<typename S>
+  static L pi_gap(const S *)
+  {
+    return INFINITY;
   }
   template<typename S>
   static L constraint(const S *)
@@ -578,6 +614,11 @@ struct Prod
       for (int j = 0; j < B::Dim; j++) mb(i, j) = M(A::Dim + i, A::Dim + j);
     A::from_matrix(ma, c);
     B::from_matrix(mb, c + A::Rep);
+  }
+  template<typename S>
+  static L pi_gap(const S * c)
+  {
+    return std::min(A::template pi_gap<S>(c), B::template pi_gap<S>(c + A::Rep));
   }
   template<typename S>
   static L constraint(const S * c)
